@@ -373,17 +373,23 @@ def gen_ers_world(rng, stats=None, force=None):
     return {"kind": "world", "objects": objs, "ops": ops, "options": {"affinity": affinity_mode, "default_mode": "auto"}}
 
 
-def gen_eds_world(rng, stats=None):
-    """a store and one to three reconciles of the ExtendedDaemonSet"""
-    n = rng.choice([0, 1, 2, 3, 4, 5, 6, 8, 10, 12])
+def gen_eds_world(rng, stats=None, force=None):
+    """a store and one to three reconciles of the ExtendedDaemonSet. `force`: scenario, n, annotations (dict),
+    canary (overrides), no_faults, plain_templates (templates every node is eligible for)."""
+    force = force or {}
+    n = force.get("n", rng.choice([0, 1, 2, 3, 4, 5, 6, 8, 10, 12]))
     tplA, tplB, tplC = gen_template(rng, 1), gen_template(rng, 2), gen_template(rng, 3)
-    scenario = rng.choice(["fresh", "undefaulted", "steady", "steady", "new_template", "canary_running", "canary_running",
+    if force.get("plain_templates"):
+        tplA, tplB, tplC = K.template(image="img:1"), K.template(image="img:2"), K.template(image="img:3")
+    scenario = force.get("scenario") or rng.choice(["fresh", "undefaulted", "steady", "steady", "new_template", "canary_running", "canary_running",
                            "canary_running", "canary_failed", "canary_failed", "active_missing", "many_rs", "no_canary_update"])
     has_canary = scenario in ("canary_running", "canary_failed") or rng.random() < 0.4
     if scenario == "no_canary_update":
         has_canary = False
     canary = gen_canary_spec(rng) if has_canary else None
-    if canary is not None and rng.random() < 0.25:
+    if canary is not None and force.get("canary"):
+        K.override_canary(canary, force["canary"])
+    if canary is not None and rng.random() < 0.25 and not force.get("canary"):
         canary["nodeSelector"] = rng.choice([{"matchLabels": {"role": "w"}}, {"matchExpressions": [{"key": "zone", "operator": "In", "values": ["a"]}]},
                                              {"matchExpressions": [{"key": "zone", "operator": "In", "values": []}]},
                                              {"matchExpressions": [{"key": "zone", "operator": "Weird"}]}])
@@ -395,6 +401,8 @@ def gen_eds_world(rng, stats=None):
     objs = list(nodes)
     role_canary = scenario in ("canary_running", "canary_failed")
     ann = gen_eds_annotations(rng, role_canary or rng.random() < 0.2)
+    if "annotations" in force:
+        ann = dict(force["annotations"])
     if scenario == "undefaulted":
         strat = rng.choice([{}, {"rollingUpdate": {"maxUnavailable": "10%"}}, {"canary": {}}, {"canary": {"validationMode": "manual"}},
                             {"canary": {"replicas": 2, "autoFail": {"enabled": False}}, "reconcileFrequency": "3s"},
@@ -482,7 +490,7 @@ def gen_eds_world(rng, stats=None):
                           cstats=[K.container_status("main", restarts=9, last_reason="Error", last_finished=-50)]))
     ops = []
     faults = None
-    if rng.random() < 0.1:
+    if rng.random() < 0.1 and not force.get("no_faults"):
         faults = rng.choice([{"status": True}, {"update": True}, {"rs_delete": ["*"]}, {"rs_create": True}])
         if "rs_delete" in faults:
             faults = {"rs_delete": [r["metadata"]["name"] for r in rss]}
